@@ -287,6 +287,55 @@ func region(l layout, b *base, ct []byte, pos int) string {
 	return "?"
 }
 
+// judge hands `in` (a private copy of the candidate byte string cand, in
+// whatever buffer flavour the caller chose) to one decrypter option and
+// compares the outcome with the reference verdict on cand. It returns a class
+// label for the evidence.
+func judge(cvx *cv, priv *sm2.PrivateKey, d *big.Int, o decOpt, in, cand []byte) (string, error) {
+	// The reference reads hybrid point forms too. Whether a decoder has to
+	// is not settled by the property: the SM2-curve path offers no hybrid
+	// form at all, and for a hybrid prefix whose parity bit contradicts y
+	// GB/T 32918.1 4.2.10 e) allows both behaviours (e.1 takes y as
+	// encoded, e.2 recomputes it). For such candidates either verdict is
+	// accepted - but if the library decrypts, then to the reference's text.
+	want, refErr := cvx.refOpen(d, cand, o.Order, true)
+	optional := false
+	if refErr == nil && (cand[0] == 6 || cand[0] == 7) {
+		optional = !cvx.legacy() || cand[0]&1 != cand[2*cvx.BL]&1
+	}
+	if cvx.legacy() && o.ASN1 && len(cand) > 0 && cand[0] != 0x30 && refErr == nil {
+		// the legacy path takes ASN1DecrypterOpts literally and reads
+		// nothing but a SEQUENCE with them
+		want, refErr = nil, errors.New("not a SEQUENCE although the options announce ASN.1")
+	}
+	pt, err, pan := call(func() ([]byte, error) { return o.Run(priv, in) })
+	if pan != "" {
+		return "", fmt.Errorf("%s panicked: %s\ncandidate %s", o.Name, pan, h.Hex(cand))
+	}
+	if !bytes.Equal(in, cand) {
+		return "", fmt.Errorf("%s modified its input", o.Name)
+	}
+	switch {
+	case refErr != nil && err == nil:
+		return "", fmt.Errorf("%s accepted a byte string that is not a valid ciphertext (%v); returned %s\ncandidate %s", o.Name, refErr, h.Hex(pt), h.Hex(cand))
+	case o.Soft && err != nil:
+		return "", nil
+	case optional && err != nil:
+		return "hybrid form (optional): refused", nil
+	case refErr == nil && err != nil:
+		return "", fmt.Errorf("%s refused (%v) a byte string the reference decrypts to %s\ncandidate %s", o.Name, err, h.Hex(want), h.Hex(cand))
+	case refErr == nil && !bytes.Equal(pt, want):
+		return "", fmt.Errorf("%s returned %s, reference %s\ncandidate %s", o.Name, h.Hex(pt), h.Hex(want), h.Hex(cand))
+	}
+	switch {
+	case optional:
+		return "hybrid form (optional): accepted", nil
+	case refErr == nil:
+		return "candidate-still-valid", nil
+	}
+	return "refused: " + refErr.Error(), nil
+}
+
 func checkNegative(c negCase, r *h.Rec) error {
 	b, err := getBase(c.B)
 	if err != nil {
@@ -327,49 +376,13 @@ func checkNegative(c negCase, r *h.Rec) error {
 		if !c.Full && !o.primary(l) {
 			continue
 		}
-		// The reference reads hybrid point forms too. Whether a decoder has to
-		// is not settled by the property: the SM2-curve path offers no hybrid
-		// form at all, and for a hybrid prefix whose parity bit contradicts y
-		// GB/T 32918.1 4.2.10 e) allows both behaviours (e.1 takes y as
-		// encoded, e.2 recomputes it). For such candidates either verdict is
-		// accepted - but if the library decrypts, then to the reference's text.
-		want, refErr := cvx.refOpen(d, cand, o.Order, true)
-		optional := false
-		if refErr == nil && (cand[0] == 6 || cand[0] == 7) {
-			optional = !cvx.legacy() || cand[0]&1 != cand[2*cvx.BL]&1
-		}
-		if cvx.legacy() && o.ASN1 && len(cand) > 0 && cand[0] != 0x30 && refErr == nil {
-			// the legacy path takes ASN1DecrypterOpts literally and reads
-			// nothing but a SEQUENCE with them
-			want, refErr = nil, errors.New("not a SEQUENCE although the options announce ASN.1")
-		}
 		in := append([]byte{}, cand...)
-		pt, err, pan := call(func() ([]byte, error) { return o.Run(priv, in) })
-		if pan != "" {
-			return fmt.Errorf("%s panicked on a %s-mutated %v ciphertext: %s\ncandidate %s", o.Name, c.Mut, l, pan, h.Hex(cand))
+		label, err := judge(cvx, priv, d, o, in, cand)
+		if err != nil {
+			return fmt.Errorf("mutation %s pos %d val %#x of a %v ciphertext: %v\n    valid %s", c.Mut, c.Pos, c.Val, l, err, h.Hex(valid))
 		}
-		if !bytes.Equal(in, cand) {
-			return fmt.Errorf("%s modified its input", o.Name)
-		}
-		switch {
-		case refErr != nil && err == nil:
-			return fmt.Errorf("%s accepted a byte string that is not a valid ciphertext (%v), mutation %s pos %d val %#x of a %v ciphertext; returned %s\ncandidate %s\n    valid %s", o.Name, refErr, c.Mut, c.Pos, c.Val, l, h.Hex(pt), h.Hex(cand), h.Hex(valid))
-		case o.Soft && err != nil:
-			continue
-		case optional && err != nil:
-			r.Label("hybrid form (optional): refused")
-			continue
-		case refErr == nil && err != nil:
-			return fmt.Errorf("%s refused (%v) a byte string the reference decrypts to %s, mutation %s of a %v ciphertext\ncandidate %s", o.Name, err, h.Hex(want), c.Mut, l, h.Hex(cand))
-		case refErr == nil && !bytes.Equal(pt, want):
-			return fmt.Errorf("%s returned %s, reference %s\ncandidate %s", o.Name, h.Hex(pt), h.Hex(want), h.Hex(cand))
-		}
-		if optional {
-			r.Label("hybrid form (optional): accepted")
-		} else if refErr == nil {
-			r.Label("candidate-still-valid")
-		} else if o.matches(l) || c.Full {
-			r.Label("refused: " + refErr.Error())
+		if label != "" && (label[0] != 'r' || o.matches(l) || c.Full) {
+			r.Label(label)
 		}
 	}
 	// converters fed with the candidate: whatever they return without error
